@@ -26,6 +26,7 @@ import Alos2.Proofs.Typing
 import Alos2.Proofs.Typing2
 import Alos2.Proofs.Padding2
 import Alos2.Proofs.PaddingLines
+import Alos2.Props.C03
 
 namespace Alos2.C20
 
@@ -127,6 +128,14 @@ theorem padding_inert_image_file (file file' : Bytes) (name : String) (rpc : Nat
     n1 = n2 ∧ g1.group.sortKeys = g2.group.sortKeys ∧ g1.array = g2.array :=
   openImageFile_padding_inert file file' name rpc n1 n2 g1 g2 h1 h2 hd1 hd2 recs1 recs2 hr1 hr2 hn hlen hhdr L hL hdrL t ht
     hrl1 hty1 hrl2 hty2 hrec
+
+/-- why `padding_inert_image_file` needs "the same number of line records": the two-record witness image of C03 and its prefix
+    cut after the first record both open at `records_per_chunk = 2` (a short read returns what is left), agree on the
+    descriptor and on the first record byte for byte — and yield one resp. two byte ranges (kernel-evaluated) -/
+example :
+    ((openImageFile (C03.witnessImage.take 914) "IMG-HH-ALOS2290760600-191011-WWDR1.5RUA" 2).toOption.map (fun r => r.2.array.byteRanges),
+     (openImageFile C03.witnessImage "IMG-HH-ALOS2290760600-191011-WWDR1.5RUA" 2).toOption.map (fun r => r.2.array.byteRanges)) =
+    (some [(912, 914)], some [(912, 914), (1106, 1108)]) := by decide +kernel
 
 theorem live_fields_only2 :
     pathsCovered (Spec.platformPosition.leaves.flatMap Sym.paths) Gen.platformPositionRecord = true ∧
